@@ -391,6 +391,10 @@ func RetVals(ret *ssa.Return) []ssa.Value {
 		var last ssa.Value
 		for _, ins := range ret.Block().Instrs {
 			if st, ok := ins.(*ssa.Store); ok && st.Addr == a {
+				// `return err` with a named result re-stores the cell's own value: not a definition
+				if ld, isLd := st.Val.(*ssa.UnOp); isLd && ld.Op == token.MUL && ld.X == ssa.Value(a) {
+					continue
+				}
 				last = st.Val
 			}
 		}
